@@ -14,6 +14,16 @@ From SV Require Import Alloc.LifeProps SaveLoad.Marker SaveLoad.SerDe SaveLoad.S
 Theorem C15_history_invariant : forall nc os w, Inv w -> run_ok nc w os -> Inv (sl_run nc w os).
 Proof. exact Inv_run. Qed.
 
+(* world.delete_entities: modelled one entity at a time (kill, purge, next);
+   that is the same function as the statement order of the code (kill the
+   whole slice up to the first handle that is not alive, then purge the killed
+   prefix), and a batch - failing or not - keeps the invariant *)
+Theorem C15_batch_deletion_in_statement_order : forall es w, sl_delete_many_stmt w es = sl_delete_many w es.
+Proof. exact delete_many_stmt_eq. Qed.
+
+Theorem C15_batch_deletion_keeps_invariant : forall es w, Inv w -> Inv (fst (sl_delete_many w es)).
+Proof. exact Inv_delete_many. Qed.
+
 Theorem C15_invariant_empty : Inv sl_empty.
 Proof. exact Inv_empty. Qed.
 
@@ -146,6 +156,8 @@ Example C15_failing_batch_nonvacuous :
 Proof. vm_compute. repeat split; auto. Qed.
 
 Print Assumptions C15_history_invariant.
+Print Assumptions C15_batch_deletion_in_statement_order.
+Print Assumptions C15_batch_deletion_keeps_invariant.
 Print Assumptions C15_invariant_meaning.
 Print Assumptions C15_ids_unique.
 Print Assumptions C15_counter_above.
